@@ -25,6 +25,7 @@ import json
 import logging
 import os
 import random
+import re
 import sys
 import time
 
@@ -96,6 +97,12 @@ class World(SmallWorld):
         """the part of the logical state the twin memo is keyed by"""
         return L
 
+    def spec_obs(self, L):
+        k = ("obs", self.memo_L(L))
+        if k not in self.memo:
+            self.memo[k] = self.observe(self.fresh(L))
+        return self.memo[k]
+
     def replay(self, hist, init=None):
         h = self.new_real(init)
         L = self.L0(init)
@@ -110,6 +117,8 @@ class World(SmallWorld):
             obs_r = self.observe(h)
             out_t, L2, obs_t = self.twin_step(L, op, arg)
             fresh, post = tuple(out_r) == tuple(out_t), tuple(obs_r) == tuple(obs_t)
+            # the state the specification says the operation leads to, on an object built directly in that state
+            obs_s = self.spec_obs(L2)
             undefined = out_t[0] == "raise" and out_t[1] in PROGRAMMING_ERRORS
             events.append({"op": op, "arg": arg, "hit": hit, "fresh": fresh, "post": post, "defined": not undefined})
             prob = None
@@ -124,9 +133,12 @@ class World(SmallWorld):
                 prob = f"{self.name}.{op}|raises-{out_t[1]}-on-a-fresh-object"
             elif st.get("expv", "") != "" and self.raw(out_t) != self.spec_value(op, arg, st["expv"]):
                 prob = f"{self.name}.{op}|fresh-object-differs-from-specification"
+            elif tuple(obs_t) != tuple(obs_s):
+                # the twin oracle cannot see an operation that has the wrong effect on EVERY object
+                prob = f"{self.name}.{op}|fresh-object-does-not-reach-the-specified-state"
             if prob:
                 problems.append({"key": prob, "step": k, "op": op, "arg": arg, "real": list(out_r), "twin": list(out_t),
-                                 "real_state": list(obs_r), "twin_state": list(obs_t), "hit": hit,
+                                 "real_state": list(obs_r), "twin_state": list(obs_t), "spec_state": list(obs_s), "hit": hit,
                                  "spec": st.get("expv", "")})
             if post:
                 diverged = None
@@ -145,8 +157,10 @@ class FamilyWorld(World):
     LIST_VALUES = [7.0, 9.0]
     VECS = {"result1": ([5.0], [10.0]), "result2": ([3.0, 4.0], [5.0, 12.0])}
 
+    NAME = {"list": "amp", "nan": "param", "result1": "param", "result2": "norm"}
+
     def L0(self, init):
-        return (init, (("T", ""), ("T", "")), None)
+        return (init, (("T", ""), ("T", "")), self.NAME[init], None)
 
     # ---- construction
     def _members(self):
@@ -186,8 +200,10 @@ class FamilyWorld(World):
         return repr(float(value))
 
     def fresh(self, L):
-        ctor, mem, _ = L
+        ctor, mem, name, _ = L
         fam = self._family(ctor)
+        if name != self.NAME[ctor]:
+            fam.parameter_name = name
         for m, (per, prop) in enumerate(mem):
             if per != "T":
                 fam[m].period = self._per(m, per)
@@ -220,9 +236,30 @@ class FamilyWorld(World):
         return {"TrajOnHit": a == b == stamp(o.trajectory)}
 
     # ---- operations
-    @staticmethod
-    def _frame(df):
-        return stamp(([str(c) for c in df.columns], np.asarray(df.to_numpy(dtype=float))))
+    def _frame(self, fam, df):
+        """stamp of the frame + what the specification can say about it: per member (orbit_id, parameter value, setting of
+        the exported trajectory), and whether every row is (orbit_id, parameter value, t, state) of the member's trajectory"""
+        a = np.asarray(df.to_numpy(dtype=float))
+        cols = [str(c) for c in df.columns]
+        ref, members = [], []
+        nsteps = {v: k for k, v in self.STEPS.items()}
+        for m, o in enumerate(fam.orbits):
+            t = getattr(o.dynamics, "_trajectory", None)
+            if t is None:
+                continue
+            ts, xs = np.asarray(t.times, dtype=float), np.asarray(t.states, dtype=float)
+            pv = float(np.asarray(fam.parameter_values, dtype=float)[m])
+            ref.append(np.column_stack([np.full(len(ts), float(m)), np.full(len(ts), pv), ts, xs]))
+        ref = np.vstack(ref) if ref else np.zeros((0, 9))
+        ok = cols == ["orbit_id", str(fam.parameter_name), "time", "x", "y", "z", "vx", "vy", "vz"] and \
+            a.shape == ref.shape and stamp(a) == stamp(ref)
+        ids = a[:, 0] if len(a) else np.zeros(0)
+        for i in sorted(set(ids.tolist())):
+            rows = a[ids == i]
+            p = rows[0, 1]
+            members.append([int(i) + 1, "nan" if p != p else (int(p) if float(p).is_integer() else float(p)),
+                            nsteps.get(len(rows), len(rows))])
+        return ("val", stamp((cols, a)), {"members": members, "rows_match": bool(ok)})
 
     def do(self, h, op, arg):
         import pandas as pd
@@ -234,28 +271,34 @@ class FamilyWorld(World):
                 fam.propagate(**kw(arg[0]))
                 return ("none",)
             if op == "ToDf":
-                return ("val", self._frame(fam.to_df(**kw(arg[0]))))
+                return self._frame(fam, fam.to_df(**kw(arg[0])))
             if op == "ToCsv":
                 self.n_files += 1
                 p = self.wd / f"family{self.n_files}.csv"
                 fam.to_csv(str(p), **kw(arg[0]))
-                return ("val", self._frame(pd.read_csv(p, float_precision="round_trip")))
+                return self._frame(fam, pd.read_csv(p, float_precision="round_trip"))
             if op == "Len":
                 return ("val", stamp(int(len(fam))), int(len(fam)))
+            which = lambda o: next((i + 1 for i, x in enumerate(fam.orbits) if x is o), 0)
             if op == "GetItem":
                 o = fam[arg[0] - 1]
-                return ("val", stamp((np.asarray(o.initial_state), o.period)))
+                return ("val", stamp((np.asarray(o.initial_state), o.period)), which(o))
             if op == "Iterate":
-                return ("val", stamp([(np.asarray(o.initial_state), o.period) for o in fam]))
+                return ("val", stamp([(np.asarray(o.initial_state), o.period) for o in fam]), [which(o) for o in fam])
             if op == "Periods":
-                return ("val", stamp(np.asarray(fam.periods)))
+                v = np.asarray(fam.periods)
+                return ("val", stamp(v), [self.pername(m, None if x != x else x) for m, x in enumerate(v)])
             if op == "Jacobis":
-                return ("val", stamp(np.asarray(fam.jacobis)))
+                v = np.asarray(fam.jacobis)
+                return ("val", stamp(v), bool(len(v) == len(fam.orbits) and all(float(x) == float(o.jacobi) for x, o in zip(v, fam.orbits))))
             if op == "ParamValues":
                 v = np.asarray(fam.parameter_values, dtype=float)
                 return ("val", stamp(v), ["nan" if x != x else (int(x) if float(x).is_integer() else float(x)) for x in v])
             if op == "ParamName":
                 return ("val", stamp(str(fam.parameter_name)), str(fam.parameter_name))
+            if op == "Rename":
+                fam.parameter_name = "renamed"
+                return ("none",)
             if op == "MemberSetPeriod":
                 fam[arg[0] - 1].period = self._per(arg[0] - 1, arg[1])
                 return ("none",)
@@ -287,8 +330,10 @@ class FamilyWorld(World):
         return (len(fam), str(fam.parameter_name), stamp(np.asarray(fam.parameter_values, dtype=float)), tuple(mem))
 
     def step_logical(self, L, op, arg, out):
-        ctor, mem, saved = L
+        ctor, mem, name, saved = L
         mem = [list(x) for x in mem]
+        if op == "Rename":
+            name = "renamed"
 
         def prop_all(s, only_missing):
             for x in mem:
@@ -310,19 +355,20 @@ class FamilyWorld(World):
                 mem[arg[0] - 1][1] = arg[1]
         mem = tuple(tuple(x) for x in mem)
         if op == "Save":
-            saved = mem
+            saved = (mem, name)
         if op in ("Load", "LoadInplace"):
-            mem = saved
-        return (ctor, mem, saved)
+            mem, name = saved
+        return (ctor, mem, name, saved)
 
     def twin_step(self, L, op, arg, memo=True):
         if op in ("Load", "LoadInplace"):
             L2 = self.step_logical(L, op, arg, None)
-            k = ("obs", L2[:2])
-            if k not in self.memo:
-                self.memo[k] = self.observe(self.fresh(L2))
-            return ("none",), L2, self.memo[k]
-        return super().twin_step(L, op, arg, memo)
+            return ("none",), L2, self.spec_obs(L2)
+        out, _, obs = super().twin_step(self.memo_L(L), op, arg, memo)
+        return out, self.step_logical(L, op, arg, None), obs
+
+    def memo_L(self, L):
+        return (L[0], L[1], L[2], None)
 
     def diagnose(self, op, arg, hit, fresh, post, L, prefix):
         if op in ("Load", "LoadInplace"):
@@ -346,6 +392,8 @@ class PointWorld(World):
     # +-0.18: centre for delta = 0.5) and, under the discrete-time config, L3/L4; at L1/L2 only the config is.
     OPTS = {"oD": None, "o1": (0.5, 1e-6), "o2": (0.008, 1e-6)}
     ALT = (3.0, 2.5)
+    TF = {"t1": 0.5, "t2": 0.8}
+    STATE0 = [0.8, 0.0, 0.0, 0.0, 0.1, 0.0]
 
     def __init__(self, fx, rec, wd, self_name="L1"):
         super().__init__(fx, rec, wd)
@@ -394,6 +442,17 @@ class PointWorld(World):
     def caches_of(self, h):
         return [h["pt"].dynamics._cache]
 
+    def before(self, h):
+        return {"pt": {id(h["pt"].dynamics._cache)}, "sys": {id(h["sys"].dynamics._cache)}}
+
+    def hit_of(self, ctx, entries, op, arg):
+        if op == "SysPropagate":
+            for e in entries:      # (the System's cache also serves mu and the vector fields: only the propagate entry counts)
+                if e["e"] == "goc" and e["cache"] in ctx["sys"] and len(e["key"]) > 2 and e["key"][2] == "propagate":
+                    return "H" if e["hit"] else "M"
+            return "-"
+        return self.top_hit(ctx["pt"], entries)
+
     def optname(self, o):
         if o is None:
             return "oD"
@@ -426,12 +485,13 @@ class PointWorld(World):
             raise MachineryError(f"{self.name}: the two configs are not distinguishable through the eigenvalues")
         f["StabKeyHasConfig"] = self.must(h, "Eigenvalues", []) == b
         h = self._new()
-        for op, arg in (("SetOptions", ["o1"]), ("SysSaveLoad", []), ("SetOptions", ["none"]), ("SysSaveLoad", [])):
+        for op, arg in (("SetOptions", ["o1"]), ("SysSaveLoad", ["load"]), ("SetOptions", ["none"]), ("SysSaveLoad", ["load"])):
             self.must(h, op, arg)
         f["LeftoverFix"] = self.must(h, "ReadOptions", [])[2] == "oD"
         # which (options, config) pairs are observable through the eigenvalues at this point (evidence only)
         st = {(o, c): self.must(self.fresh((o, c, (self.self_name,), None)), "Eigenvalues", [])[1] for o in self.OPTS for c in ("cC", "cD")}
         self.observable = {f"{c}:{o1}/{o2}": st[(o1, c)] != st[(o2, c)] for c in ("cC", "cD") for o1 in self.OPTS for o2 in self.OPTS if o1 < o2}
+        self.flags = dict(f)
         return f
 
     # ---- operations
@@ -496,6 +556,8 @@ class PointWorld(World):
             if op == "SysGetPoint":
                 q = s.get_libration_point(self.IDX[arg[0]])
                 return ("val", stamp((int(q.idx), np.asarray(q.position))), f"L{int(q.idx)}")
+            if op == "SysPropagate":
+                return ("val", stamp(s.propagate(list(self.STATE0), tf=self.TF[arg[0]], steps=20, method="adaptive", order=8)))
             if op == "SysPoints":
                 k = sorted(int(i) for i in s.libration_points)
                 return ("val", stamp(k), [f"L{i}" for i in k])
@@ -516,7 +578,10 @@ class PointWorld(World):
                 self.n_files += 1
                 p = self.wd / f"system{self.n_files}.pkl"
                 s.save(p)
-                h["sys"] = self.fx.System.load(p)
+                if arg[0] == "inplace":
+                    s.load_inplace(p)
+                else:
+                    h["sys"] = self.fx.System.load(p)
                 h["pt"] = h["sys"].get_libration_point(self.idx)
                 return ("none",)
         except Exception as ex:  # noqa
@@ -556,10 +621,7 @@ class PointWorld(World):
         L2 = self.step_logical(L, op, arg, None)
         if op in ("Load", "LoadInplace", "SysSaveLoad"):
             # the meaning of a round trip: the object is in the saved logical state
-            k = ("obs", L2[:3])
-            if k not in self.memo:
-                self.memo[k] = self.observe(self.fresh(L2))
-            return ("none",), L2, self.memo[k]
+            return ("none",), L2, self.spec_obs(L2)
         out, _, obs = super().twin_step(self.memo_L(L), op, arg, memo)
         return out, L2, obs
 
@@ -574,23 +636,27 @@ class PointWorld(World):
         alt = any(s["op"] == "ScaleFactor" and list(s["arg"]) == ["alt"] for s in since)
         own = any(s["op"] in ("ScaleFactor", "NormalForm", "LinearData", "Save", "Hamiltonian", "HamSys", "GenFuncs") and
                   list(s["arg"]) != ["alt"] for s in since)
-        if self.collinear and op == "ScaleFactor" and not fresh and hit == "H" and (alt or own):
+        # a deviation the micro-probes have already identified is named after its cause; anything else after the operation
+        fl = getattr(self, "flags", {})
+        sf_bug, cfg_bug = not fl.get("ScaleKeyHasArgs", True), not fl.get("StabKeyHasConfig", True)
+        left_bug, cm_bug = not fl.get("LeftoverFix", True), not fl.get("CMRecheck", True)
+        if sf_bug and op == "ScaleFactor" and not fresh and hit == "H" and (alt or own):
             return "libration.scale_factor|arguments-not-in-cache-key"
-        if self.collinear and op in ("NormalForm", "LinearData", "Hamiltonian", "HamSys", "GenFuncs") and not fresh and alt:
+        if sf_bug and op in ("NormalForm", "LinearData", "Hamiltonian", "HamSys", "GenFuncs") and not fresh and alt:
             return "libration.scale_factor|arguments-not-in-cache-key"
-        if op in ("Eigenvalues", "IsStable") and not fresh and hit == "H" and "SetConfig" in ops:
+        if cfg_bug and op in ("Eigenvalues", "IsStable") and not fresh and hit == "H" and "SetConfig" in ops:
             return "libration.compute_stability|stale-after-config-change"
         if op in ("Eigenvalues", "IsStable") and not fresh and hit == "H":
             return "libration.compute_stability|stale-cache-entry"
         if op in ("Load", "LoadInplace", "SysSaveLoad") or (op in ("ReadOptions", "ReadConfig", "Eigenvalues", "IsStable") and not post):
             reset = any(s["op"] in ("SetOptions", "SetConfig") and list(s["arg"]) == ["none"] for s in prefix)
             loaded = any(s["op"] in ("Load", "LoadInplace", "SysSaveLoad") for s in prefix[:-1])
-            if reset and loaded:
+            if left_bug and reset and loaded:
                 return "libration.save-load|reset-option-attribute-resurrected"
             return "libration.save-load|state-not-preserved"
-        if op == "GetCM":
+        if cm_bug and op == "GetCM":
             return "libration.center_manifold|cached-object-degree-mutated"
-        if op in ("Hamiltonian", "HamSys", "GenFuncs") and "RetargetCM" in ops:
+        if cm_bug and op in ("Hamiltonian", "HamSys", "GenFuncs") and "RetargetCM" in ops:
             return "libration.hamiltonian|computed-from-retargeted-center-manifold"
         if not fresh and hit == "H":
             return f"point.{op}|stale-or-aliased-cache-entry"
@@ -641,6 +707,7 @@ class TorusWorld(World):
         self.do(h, "OrbitSetPeriod", ["P1"])
         f = {"KeyHasOrbitState": self.do(h, "Compute", ["eA", "n16"]) == self.do(self._pair("P1"), "Compute", ["eA", "n16"])}
         f["AsTorusWorks"] = self.do(self._pair("T"), "AsTorus", ["eA", "n16"])[0] == "val"
+        self.flags = dict(f)
         return f
 
     def do(self, h, op, arg):
@@ -680,6 +747,9 @@ class TorusWorld(World):
 
     def memo_L(self, L):
         return (L[0], None)
+
+    def spec_obs(self, L):
+        return (L[0],) + tuple(self.grid_at(L[1]))
 
     def grid_at(self, lastC):
         """what tori.grid / params must hold: the outcome of compute(e, n) on a fresh object of the orbit as it was then"""
@@ -728,7 +798,7 @@ class TorusWorld(World):
             elif st["op"] == "OrbitSetPeriod" and any(s["op"] in ("Compute", "AsTorus", "State", "ReadEigenvalues") for s in prefix[start:i]):
                 changed = True
         what = {"Compute": "compute_grid", "AsTorus": "as_torus", "State": "prepare", "ReadEigenvalues": "eigen_data"}.get(op)
-        if what and changed and (not fresh or op in ("Compute", "AsTorus")):
+        if what and changed and (not fresh or op in ("Compute", "AsTorus")) and not getattr(self, "flags", {}).get("KeyHasOrbitState", True):
             return f"torus.{'compute_grid' if op == 'AsTorus' else what}|stale-after-orbit-change"
         if op in ("ReadGrid", "ReadParams") or (what and fresh and not post):
             return "torus.grid|not-the-last-computed-grid"
@@ -768,10 +838,20 @@ class Plan:
             # the working tree implements the repaired design: the proof of the requirement covers it
             self.names["viol"] = []
         cfg = lambda n: make_cfg(n, self.flags, wd, f"{world.name}.{n}")
-        self.f_repaired = pool.submit(tlc, OBJ / mcspec, CFG / repaired, timeout=2400, workers=4)
-        self.f_asis = pool.submit(tlc, OBJ / mcspec, cfg(asis), timeout=2400, workers=1)
-        self.f_probe = pool.submit(tlc, OBJ / "probe" / probe_spec, cfg(probe), timeout=2400, workers=1)
-        self.f_viol = [pool.submit(tlc, OBJ / mcspec, cfg(v), timeout=2400, workers=1) for v in self.names["viol"]]
+        # many small JVMs run side by side: keep each one's garbage-collector and JIT thread pools small
+        jv = {"JAVA_TOOL_OPTIONS": "-XX:ParallelGCThreads=2 -XX:CICompilerCount=2"}
+        self.f_repaired = pool.submit(tlc, OBJ / mcspec, CFG / repaired, timeout=2400, workers=4, env=jv)
+        self.f_asis = pool.submit(tlc, OBJ / mcspec, cfg(asis), timeout=2400, workers=1, env=jv)
+        self.f_probe = pool.submit(tlc, OBJ / "probe" / probe_spec, cfg(probe), timeout=2400, workers=1, env=jv)
+        self.f_viol = [pool.submit(tlc, OBJ / mcspec, cfg(v), timeout=2400, workers=1, env=jv) for v in self.names["viol"]]
+        # does "distinct quantities have distinct keys" hold for the keys of the working tree?  (the invariant alone, initial state)
+        self.f_keys = None
+        if self.names["viol"]:
+            kp = make_cfg(repaired, self.flags, wd, f"{world.name}.keys.cfg")
+            lines = [ln for ln in kp.read_text().splitlines()
+                     if not ln.startswith("INVARIANT") or ln.split()[1] == "DistinctQuantitiesDistinctKeys"]
+            kp.write_text(re.sub(r"MaxLen = \d+", "MaxLen = 0", "\n".join(lines)) + "\n")
+            self.f_keys = pool.submit(tlc, OBJ / mcspec, kp, timeout=600, workers=1, env=jv)
 
 
 def run_object(ck: Check, plan: Plan, rnd):
@@ -808,6 +888,14 @@ def run_object(ck: Check, plan: Plan, rnd):
                 classes[k] = h
     predicted = list(classes.values())
     refuted = sorted({x for k in classes for x in k[0]})
+    if plan.f_keys is not None:
+        rk = plan.f_keys.result()
+        # (TLC evaluates a constant-level invariant before the search: "The invariant of X is equal to FALSE")
+        false_ = "DistinctQuantitiesDistinctKeys is equal to FALSE" in rk.out or rk.invariant_violated == "DistinctQuantitiesDistinctKeys"
+        if not (rk.ok or false_):
+            raise MachineryError(f"{name}: key-distinctness run failed: {rk.error}\n{rk.out[-2000:]}")
+        if false_:
+            refuted.append("DistinctQuantitiesDistinctKeys")
     ck.part(name + "_model", live_transcription_is_repaired_design=all(plan.variant.values()),
             requirement_refuted_for_live_transcription=refuted, violating_states=n_viol_states, violating_classes=len(classes))
 
@@ -836,8 +924,9 @@ def run_object(ck: Check, plan: Plan, rnd):
         if src == "predicted" and not problems:
             unconfirmed += 1
             dbg(name, "model-predicted violation not observable on the code:", _label(h))
-        for p in problems:
-            viol_found.setdefault(p["key"], (h[: p["step"] + 1], p, init))
+        for p in problems:       # per key, the shortest failing history
+            if p["key"] not in viol_found or p["step"] + 1 < len(viol_found[p["key"]][0]):
+                viol_found[p["key"]] = (h[: p["step"] + 1], p, init)
     ck.part(name + "_replay", histories=len(hists), cover=len(cover), cover_of=total_cover, probe_histories=len(ph),
             predicted_violation_histories=len(predicted), predicted_not_observable=unconfirmed,
             steps=sum(len(h) for _, h in hists), model_stale_steps=n_stale_model, real_stale_steps=n_bad,
@@ -968,7 +1057,7 @@ def main(tier=None, replay=None):
         if want("family"):
             plans.append(Plan(pool, FamilyWorld(fx, rec, wd), wd, mcspec="MCFamilyObject.tla", probe_spec="MCFamilyProbe.tla",
                               repaired=f"FamilyObject.repaired.{t}.cfg", asis=f"FamilyObject.asis.{t}.cfg",
-                              viol=["FamilyObject.viol.cfg"], probe=f"FamilyProbe.asis.{t}.cfg", budget=400 if q else 4000, flags0=dm))
+                              viol=["FamilyObject.viol.cfg"], probe=f"FamilyProbe.asis.{t}.cfg", budget=300 if q else 4000, flags0=dm))
         if want("torus"):
             plans.append(Plan(pool, TorusWorld(fx, rec, wd), wd, mcspec="MCTorusObject.tla", probe_spec="MCTorusProbe.tla",
                               repaired="TorusObject.repaired.cfg", asis=f"TorusObject.asis.{t}.cfg", viol=["TorusObject.viol.cfg"],
